@@ -36,6 +36,28 @@ CHECKS = {
     ),
 }
 
+CHECKS["C04"] = dict(
+    level="exploration",
+    text="Two layers against one reference model written from the statement (set of accepted counters + maximum + 16-entry window): "
+         "(1) counter histories produced by a simulated sender and network adversary (drop, duplicate, reorder within/beyond the window, "
+         "jumps, starts around 0 / 2^28 / 2^31 / 2^32-1, up to 20 group senders with LRU eviction and roll-over) fed to the real "
+         "RxCtrState / GroupCtrStore and compared verdict by verdict; (2) two real stacks under the datagram adversary with the "
+         "receive-window verdict of every datagram (guarded event hook) compared with the model. Layer 1 is honest model-based testing of a "
+         "pure state machine driven by simulated network histories; layer 2 is what only a simulator reaches.",
+    design="DESIGN.md §4 C04",
+    technique="deterministic simulation with fault injection: adversarial arrival histories vs reference model, plus two-stack simulation with per-datagram verdict oracle",
+)
+CHECKS["C15"] = dict(
+    level="exploration",
+    text="Wire-tap oracle over two-stack simulations under loss patterns that force retransmissions (incl. piggy-backed acknowledgements "
+         "on retransmitted messages): all datagrams with the same (sender incarnation, session, counter, source) are bit-identical; the "
+         "counters a session hands out strictly increase and every emitted datagram carries a handed-out counter (guarded event hook); "
+         "snapshots: unique local session ids / exchange ids; plus an allocation history of > 66 000 exchanges with long-lived ones across "
+         "the 16-bit id wrap. Handshake retransmissions (randomised signatures) are covered by the same oracle in the CASE world when built.",
+    design="DESIGN.md §4 C15",
+    technique="deterministic simulation with fault injection: seeded fault/schedule search with wire-tap identity oracle and id-uniqueness invariants",
+)
+
 NOT_APPLICABLE = {
     "C05": "pure function of (ACL entries, accessor, request): no schedule, clock, fault or history to simulate; stateful neighbours are covered by C06/C07",
     "C16": "pure function of a byte string / value tree (TLV codec): no schedule, clock, fault, crash or history; fuzzing/Kani territory, not deterministic simulation",
